@@ -245,11 +245,16 @@ class generate_instruction:
     sorts = dict(instruction="record(tag=pystr)")
     opaque_calls = "mayraise"
     modifies = ["self._context.reached_optional_field", "self._context.reached_dummy",
-                "self._context.chunked_reading_enabled"]
+                "self._context.chunked_reading_enabled", "self._context.needs_old_writer_length_variable"]
 
     def must_raise(self):
         # rule: nothing may follow a <dummy>, whatever kind of instruction it is
         return {RuntimeError: self._context.reached_dummy}
+
+    def ensures(self, old_self):
+        # placement: whatever the instruction (including a whole nested <chunked> section or <switch>), the
+        # chunked flag an instruction's successors see is the one it saw itself
+        return [self._context.chunked_reading_enabled == old_self._context.chunked_reading_enabled]
 
 
 @contract(OCG + "._generate_field")
@@ -263,6 +268,11 @@ class generate_field_:
         # rule: a required field may not follow an optional one
         return {RuntimeError: self._context.reached_optional_field and not XBOOL(protocol_field, "optional", False)}
 
+    def ensures(self, old_self, protocol_field):
+        # placement: from an optional field on, "an optional field was reached" holds
+        return [self._context.reached_optional_field
+                == (old_self._context.reached_optional_field or XBOOL(protocol_field, "optional", False))]
+
 
 @contract(OCG + "._generate_length")
 class generate_length_:
@@ -273,6 +283,10 @@ class generate_length_:
 
     def must_raise(self, protocol_length):
         return {RuntimeError: self._context.reached_optional_field and not XBOOL(protocol_length, "optional", False)}
+
+    def ensures(self, old_self, protocol_length):
+        return [self._context.reached_optional_field
+                == (old_self._context.reached_optional_field or XBOOL(protocol_length, "optional", False))]
 
 
 @contract(OCG + "._generate_array")
@@ -287,6 +301,10 @@ class generate_array_:
         return {RuntimeError: (self._context.reached_optional_field and not XBOOL(protocol_array, "optional", False))
                 or (XBOOL(protocol_array, "delimited", False) and not self._context.chunked_reading_enabled)}
 
+    def ensures(self, old_self, protocol_array):
+        return [self._context.reached_optional_field
+                == (old_self._context.reached_optional_field or XBOOL(protocol_array, "optional", False))]
+
 
 @contract(OCG + "._generate_break")
 class generate_break_:
@@ -300,3 +318,125 @@ class generate_break_:
 
     def ensures(self):
         return [not self._context.reached_optional_field, not self._context.reached_dummy]
+
+
+# ---- placement (C17 "wherever it occurs"): how the walk threads the three context flags through nested
+# chunked sections, switches and case-data classes.  Each function gets the transfer property of its own
+# step; that the flags an instruction sees are those of its syntactic position is the composition of
+# these steps over the XML tree (structural induction: meta-step).  String building, builders and XML
+# accessors are opaque calls; that no opaque callee writes one of the three flags is checked
+# syntactically on every run (checks.c17.flag_frame_scan).
+SCG = "protocol_code_generator.generate.switch_code_generator.SwitchCodeGenerator"
+OGC = "protocol_code_generator.generate.object_code_generator.ObjectGenerationContext"
+
+
+@class_contract(OCG)
+class ObjectCodeGenerator:
+    fields = dict(_context="protocol_code_generator.generate.object_code_generator.ObjectGenerationContext", _class_name="opaque", _type_factory="opaque", _data="opaque")
+
+
+@class_contract(SCG)
+class SwitchCodeGenerator:
+    fields = dict(_context="protocol_code_generator.generate.object_code_generator.ObjectGenerationContext", _field_name="opaque", _type_factory="opaque", _data="opaque")
+
+
+@contract("protocol_code_generator.generate.object_code_generator.ObjectGenerationData.__init__")
+class ogd_init:
+    trusted = True      # builds empty code blocks and lists; touches nothing else
+    sorts = dict(class_name="opaque")
+
+
+@contract(OCG + "._generate_dummy")
+class generate_dummy_:
+    properties = ["C17"]
+    sorts = dict(protocol_dummy="record()")
+    opaque_calls = "mayraise"
+    modifies = ["self._context.reached_dummy", "self._context.needs_old_writer_length_variable"]
+
+    def ensures(self):
+        return [self._context.reached_dummy]
+
+
+@contract(OCG + "._generate_chunked")
+class generate_chunked_:
+    properties = ["C17"]
+    sorts = dict(protocol_chunked="record()")
+    opaque_calls = "mayraise"
+    modifies = ["self._context.reached_optional_field", "self._context.reached_dummy",
+                "self._context.chunked_reading_enabled", "self._context.needs_old_writer_length_variable"]
+
+    def inv_0(self):
+        # every child of a <chunked> section is generated with the chunked flag on
+        return [self._context.chunked_reading_enabled]
+
+    def ensures(self, old_self):
+        # ... and the flag is what it was once the section is closed
+        return [self._context.chunked_reading_enabled == old_self._context.chunked_reading_enabled]
+
+
+@contract(OCG + "._generate_switch")
+class generate_switch_:
+    properties = ["C17"]
+    sorts = dict(protocol_switch="record()")
+    opaque_calls = "mayraise"
+    modifies = ["self._context.reached_optional_field", "self._context.reached_dummy"]
+
+    def inv_0(self, old_self, reached_optional_field, reached_dummy):
+        return [
+            # the cases do not disturb the enclosing object's flags while they are generated ...
+            self._context.reached_optional_field == old_self._context.reached_optional_field,
+            self._context.reached_dummy == old_self._context.reached_dummy,
+            self._context.chunked_reading_enabled == old_self._context.chunked_reading_enabled,
+            # ... and what is accumulated never forgets what held before the switch
+            (not old_self._context.reached_optional_field) or reached_optional_field,
+            (not old_self._context.reached_dummy) or reached_dummy,
+        ]
+
+    def ensures(self, old_self):
+        # an optional field / a dummy reached before a switch is still reached after it, whatever the cases do
+        # (a <break> inside a case resets the case's copy only)
+        return [(not old_self._context.reached_optional_field) or self._context.reached_optional_field,
+                (not old_self._context.reached_dummy) or self._context.reached_dummy]
+
+
+@contract(SCG + ".generate_case")
+class generate_case_:
+    properties = ["C17"]
+    sorts = dict(protocol_case="record()", start="bool", result="protocol_code_generator.generate.object_code_generator.ObjectGenerationContext")
+    opaque_calls = "mayraise"
+    modifies = []
+
+    def must_raise(protocol_case, start):
+        # rule: a lone default case
+        return {RuntimeError: XBOOL(protocol_case, "default", False) and start}
+
+    def ensures(self, result):
+        # the case-data class is generated in a COPY of the enclosing context (never the context itself) that
+        # inherits the chunked flag of the switch's position
+        return [result is not self._context,
+                result.chunked_reading_enabled == self._context.chunked_reading_enabled]
+
+
+@contract(SCG + ".generate_case_data_type")
+class generate_case_data_type_:
+    properties = ["C17"]
+    sorts = dict(protocol_case="record()", case_data_type_name="opaque", case_context="protocol_code_generator.generate.object_code_generator.ObjectGenerationContext", result="opaque")
+    opaque_calls = "mayraise"
+    modifies = ["case_context.reached_optional_field", "case_context.reached_dummy",
+                "case_context.needs_old_writer_length_variable"]
+
+    def requires(self, case_context):
+        # the instructions of a case start from the flags of the switch's position
+        return [case_context is not self._context,
+                case_context.chunked_reading_enabled == self._context.chunked_reading_enabled,
+                case_context.reached_optional_field == self._context.reached_optional_field,
+                case_context.reached_dummy == self._context.reached_dummy]
+
+    def inv_0(self, object_code_generator, case_context, old_case_context):
+        # the generator of the case-data class works ON the context it was handed (so that the flags the case
+        # body sets are the ones _generate_switch reads back), in the chunked state of the switch
+        return [object_code_generator._context is case_context,
+                case_context.chunked_reading_enabled == old_case_context.chunked_reading_enabled]
+
+    def ensures(self, case_context, old_case_context):
+        return [case_context.chunked_reading_enabled == old_case_context.chunked_reading_enabled]
